@@ -4,6 +4,7 @@ import Juniper.Driver.C19
 import Juniper.Driver.C10
 import Juniper.Driver.C10Chan
 import Juniper.Driver.C12
+import Juniper.Driver.C05
 /-! `driver <model>`: runs one executable model behind the line protocol. Core-only (no Mathlib).
 Registration: one `import` line above and one `[("name", handler)],` line below per model
 (this file is merged with git's union driver, so keep one entry per line). -/
@@ -15,6 +16,7 @@ def handlers : List (String × Handler) := List.flatten [
   [("pipe", Juniper.Driver.C10.handler)],
   [("chanstream", Juniper.Driver.C10Chan.handler)],
   [("merge", Juniper.Driver.C12.mergeHandler), ("replicate", Juniper.Driver.C12.replHandler), ("smerge", Juniper.Driver.C12.smergeHandler)],
+  [("heap", Juniper.Driver.C05.handler)],
   []]
 
 def main (args : List String) : IO UInt32 := do
